@@ -12,8 +12,13 @@ import tocoq
 import vlib
 import world
 
-SUPPORTED = set(schemagen.ALL_FEATURES) - {"defaults", "oneof_external", "oneof_internal", "oneof_adjacent",
-                                           "allof_objects", "int_enum"}
+# what Check/Covers.v understands (CoversProofs.covers_sound) and the C02 check is green on for
+# VERIF_SEED=1,2,3: typed enums, externally and adjacently tagged enums, allOf of objects.  The
+# checker also proves "oneof_internal" (543/543 "T" over the faithful seeds 1..3 + 1000..1059) and
+# "defaults"; they stay out of the stream because with "oneof_internal" seed 2 trips K5 (a `ser`
+# mismatch on a recursive Option member, and a coqc stack overflow on a 335 KB shard) - not a
+# validator matter - and "defaults" was never part of the C02 stream (C06's subject).
+SUPPORTED = set(schemagen.ALL_FEATURES) - {"defaults", "oneof_internal"}
 
 
 def covers_eval(tag, docs, dumps, timeout=600):
